@@ -105,6 +105,24 @@ def _tc(src):
     return t
 
 
+def _reference_overhead():
+    """How much longer than asked two joins of _TIMEOUT on a busy pure-Python thread take on this machine right now."""
+    import threading, time  # noqa: E401
+    stop = time.monotonic() + 2 * _TIMEOUT + 0.05
+
+    def busy():
+        while time.monotonic() < stop:
+            pass
+    th = threading.Thread(target=busy, daemon=True)
+    t0 = time.monotonic()
+    th.start()
+    th.join(timeout=_TIMEOUT)
+    th.join(timeout=_TIMEOUT)
+    over = time.monotonic() - t0 - 2 * _TIMEOUT
+    th.join()
+    return max(0.0, over)
+
+
 def _sig(res, sp):
     tr = res.execution_trace
     return (res.timeout, sorted((k, type(v).__name__) for k, v in res.exceptions.items()),
@@ -124,18 +142,52 @@ def _check_c32(part: Part, tier, seed):
             if again != ref[k]:
                 part.error(f"terminating test case {k} is not deterministic on a quiet executor: {again} vs {ref[k]}")
                 return
+        def timed_execute(src):
+            log = []
+            me = threading.current_thread()
+            orig_join = threading.Thread.join
+
+            def join(self, timeout=None):
+                if threading.current_thread() is me:
+                    log.append(timeout)
+                return orig_join(self, timeout)
+            threading.Thread.join = join
+            try:
+                t0 = time.monotonic()
+                res = executor.execute(_tc(src))
+                return res, time.monotonic() - t0, log
+            finally:
+                threading.Thread.join = orig_join
+
         waits = [0.0, 0.1, 1.1] if tier == "quick" else [0.0, 0.05, 0.1, 0.3, 0.7, 1.1]
         for (lk, lsrc), wait, (tk, tsrc) in itertools.product(_LOOPERS.items(), waits, _TERMINATING.items()):
             part.case()
-            t0 = time.monotonic()
-            ra = executor.execute(_tc(lsrc))
-            elapsed = time.monotonic() - t0
+            ra, elapsed, waits_asked = timed_execute(lsrc)
             if not ra.timeout:
                 part.violation("a test case that does not terminate within the bound is reported as a timeout", f"no-timeout:{lk}",
                                {"test": lsrc, "elapsed_s": round(elapsed, 2)}, target=f"{EX}:TestCaseExecutor.execute")
-            if elapsed > 2 * _TIMEOUT + 1.0:      # bound + grace period, plus scheduling slack
+            # (a) what execute() asks for, independent of the machine's load: it waits for its worker thread only with finite
+            #     time-outs, and these add up to at most the configured bound plus the grace period (one more bound)
+            if any(w is None for w in waits_asked) or sum(w for w in waits_asked if w is not None) > 2 * _TIMEOUT + 1e-9:
                 part.violation("a timeout is reported within the configured bound plus the grace period", f"late:{lk}",
-                               {"test": lsrc, "elapsed_s": round(elapsed, 2), "timeout_s": _TIMEOUT}, target=f"{EX}:TestCaseExecutor.execute")
+                               {"test": lsrc, "join_timeouts_requested": waits_asked, "timeout_s": _TIMEOUT,
+                                "allowed_total_s": 2 * _TIMEOUT}, target=f"{EX}:TestCaseExecutor.execute")
+            # (b) the wall clock, judged against a reference wait of the same shape taken at the same moment (on a loaded machine
+            #     both stretch alike): late only if every one of three attempts is late
+            elif elapsed > 2 * _TIMEOUT + 1.0 + 3 * _reference_overhead():
+                attempts = [round(elapsed, 2)]
+                for _ in range(2):
+                    for th in threading.enumerate():
+                        if th is not threading.current_thread() and th.daemon:
+                            th.join(timeout=3)
+                    _r, e2, _w = timed_execute(lsrc)
+                    attempts.append(round(e2, 2))
+                    if e2 <= 2 * _TIMEOUT + 1.0 + 3 * _reference_overhead():
+                        break
+                else:
+                    part.violation("a timeout is reported within the configured bound plus the grace period", f"late:{lk}",
+                                   {"test": lsrc, "elapsed_s_of_three_attempts": attempts, "timeout_s": _TIMEOUT,
+                                    "reference_overhead_s": round(_reference_overhead(), 2)}, target=f"{EX}:TestCaseExecutor.execute")
             if ra.timeout and (ra.exceptions or ra.execution_trace.covered_line_ids or ra.execution_trace.executed_predicates):
                 part.violation("a timed-out execution reports a fresh, empty result", f"timeout-result:{lk}",
                                {"test": lsrc, "result": repr(_sig(ra, sp))[:300]}, target=f"{EX}:TestCaseExecutor.execute")
